@@ -176,7 +176,7 @@ def run(R):
                     "ctx.%s() is not individually guarded inside the loop: the first failing %s() skips the remaining contexts, which are later "
                     "paused/resumed out of step" % (hook, hook))
         # the collected error reaches the task
-        acc = kit.call_sites(m, lambda c: q.call_name(c) == "self._accept_error")
+        acc = [c for n_, c, kind, v in ro.completing_calls(m) if kind == "error"]
         R.check(bool(acc), "C06.HOOK-ALL", m.qualname + ":error", R.site(m),
                 "an exception from a hook is routed to the task's error (_accept_error)", "an exception from a hook is no longer routed to the task's error")
     # ownership of the flag
@@ -201,7 +201,7 @@ def run(R):
             resumed = [x for x, cc in kit.call_sites(m, lambda cc: q.call_name(cc) == "self._resume_contexts")]
             p = mcfg.find_path([mcfg.entry], [n], N, cut_nodes=resumed)
             callers = [f for f, call, k in R.res.callers_of(m, kinds=("resolved",))]
-            only_in_step = bool(callers) and all(f is driver for f in callers)
+            only_in_step = (bool(callers) and all(f is driver for f in callers)) or m is driver
             R.check(p is None or only_in_step, "C06.CLOSE-RESUMED", "%s:%s" % (m.qualname, q.stmt_key(c)), R.site(m, c),
                     "the generator is closed with the task's contexts active (%s)" % (
                         "only called from the step driver, which runs after _resume_contexts" if only_in_step and p is not None
@@ -263,7 +263,10 @@ def enter_exit_rules(R, P):
                 R.check(p is None, P + ".ENTER-EXIT", "%s:%s:once" % (m.qualname, hook), R.site(m),
                         "self.%s() at most once per %s" % (hook, m.name), "self.%s() can be called twice by %s" % (hook, m.name),
                         cfg.fmt_path(p) if p else None)
-            regs = kit.call_sites(m, lambda c: q.call_name(c) == reg and c.args and q.src(c.args[0]) == "self")
+            inner = "_enter_context" if reg == "enter_context" else "_leave_context"
+            regs = kit.call_sites(m, lambda c: (q.call_name(c) == reg and c.args and q.src(c.args[0]) == "self") or
+                                  (q.attr_call(c)[1] == inner and c.args and q.src(c.args[0]) == "self"))
+            written_out = any(q.attr_call(c)[1] == inner for n_, c in regs)
 
             def asyncio_mode(nd):
                 if nd.kind != "test":
@@ -273,9 +276,21 @@ def enter_exit_rules(R, P):
                     return "T" if pos else "F"
                 return None
 
+            def no_task(nd):
+                # written-out form: nothing to register when there is no active task
+                if nd.kind != "test" or not written_out:
+                    return None
+                k, s_, pos = q.atom_test(nd.ast)
+                if k == "isnone" and ("active_task" in s_ or s_.endswith("_task")):
+                    return "T" if pos else "F"
+                return None
+
             def keep(e, cfg=cfg):
                 lab = asyncio_mode(cfg.nodes[e.src])
-                return not (lab is not None and e.label == lab)
+                if lab is not None and e.label == lab:
+                    return False
+                lab2 = no_task(cfg.nodes[e.src])
+                return not (lab2 is not None and e.label == lab2)
             p = cfg.find_path([cfg.entry], [cfg.exit], N, cut_nodes=[n for n, c in regs], keep_edge=keep)
             R.check(p is None and regs, P + ".ENTER-EXIT", "%s:%s" % (m.qualname, reg), R.site(m),
                     "outside asyncio mode %s calls %s(self, ...) on every path" % (m.name, reg),
@@ -284,7 +299,18 @@ def enter_exit_rules(R, P):
     # __exit__ unregisters before it pauses: if pause() raises, the context is nevertheless no longer known to the task
     ex = AC.methods.get("__exit__")
     cfg = cfg_of(ex)
-    leaves = [n for n, c in kit.call_sites(ex, lambda c: q.call_name(c) == "leave_context")]
+    leaves = [n for n, c in kit.call_sites(ex, lambda c: q.call_name(c) == "leave_context" or q.attr_call(c)[1] == "_leave_context")]
+    if any(q.attr_call(c)[1] == "_leave_context" for n, c in kit.call_sites(ex, lambda c: q.attr_call(c)[1] == "_leave_context")):
+        # written-out form: with no active task there is nothing to unregister
+        def _no_task(nd):
+            if nd.kind != "test":
+                return None
+            k, s_, pos = q.atom_test(nd.ast)
+            if k == "isnone" and ("active_task" in s_ or s_.endswith("_task")):
+                return "T" if pos else "F"
+            return None
+    else:
+        _no_task = lambda nd: None
     pauses = [n for n, c in _calls_on_self(ex, "pause")]
 
     def asyncio_mode(nd):
@@ -297,7 +323,10 @@ def enter_exit_rules(R, P):
 
     def keep(e):
         lab = asyncio_mode(cfg.nodes[e.src])
-        return not (lab is not None and e.label == lab)
+        if lab is not None and e.label == lab:
+            return False
+        lab2 = _no_task(cfg.nodes[e.src])
+        return not (lab2 is not None and e.label == lab2)
     p = cfg.find_path([cfg.entry], pauses, N, cut_nodes=leaves, keep_edge=keep)
     R.check(p is None and leaves and pauses, P + ".EXIT-ORDER", ex.qualname, R.site(ex),
             "outside asyncio mode __exit__ unregisters the context from its task before calling pause()",
